@@ -31,6 +31,11 @@ fn main() {
         let files: Vec<(String, String)> = ["base", "sync", "spec", "spec-sync"].iter().map(|c| (c.to_string(), format!("{}/{}.txt", args[3], c))).collect();
         std::process::exit(checks::c17::run(tier, &files));
     }
+    #[cfg(all(feature = "sched", jmespath_rs_verif))]
+    if id == "C16-first" {
+        let ch: Vec<usize> = args[2].split(',').filter_map(|x| x.parse().ok()).collect();
+        std::process::exit(checks::c16::first_use_child(ch));
+    }
     if id == "C13-first" {
         std::process::exit(checks::c13::first_child(args[2].parse().unwrap()));
     }
